@@ -44,13 +44,21 @@ Qed.
 
 Lemma terminalb_ok F s : terminalb F s = true -> terminal F s.
 Proof.
-  unfold terminalb, terminal. rewrite !andb_true_iff. intros [[[H1 H2] H3] H4].
+  unfold terminalb, terminal. rewrite !andb_true_iff. intros [[[[H1 H2] H3] H5] H4].
   split_and!.
   - by destruct (step F s AQueue).
   - by destruct (step F s ATask).
   - by destruct (step F s ADrain).
+  - by destruct (step F s AOWake).
   - intros e. cbn. unfold fire. destruct (evs s !! e) as [c|] eqn:E; cbn; [|done].
     rewrite forallb_forall in H4. rewrite (H4 c); [done|]. apply elem_of_list_In. by eapply elem_of_list_lookup_2.
+Qed.
+
+(* a suspended other operation can be resumed: not in a terminal state *)
+Lemma no_parked_other F s : cells_ok s -> step F s AOWake = None -> in_drain s.(pc) = false -> s.(parked) = true -> is_other s.(cur) = false.
+Proof.
+  intros Hc Hs Hd Hp. destruct (is_other (cur s)) eqn:Ho; [|done]. exfalso. cbn in Hs. rewrite Ho, Hp, Hd in Hs. cbn in Hs.
+  destruct (owk s) eqn:E; [done|]. by apply (proj2 (c_owk _ Hc)).
 Qed.
 
 Section Live.
@@ -61,18 +69,19 @@ Section Live.
      it is not waiting for its slot with the slot reached, not waiting for the user future, not waiting for a signalled
      scheduler future -- it has its result *)
   Lemma idle_owner_done tr s :
-    script_ok nev scr -> run F s0 tr = Some s -> (forall e, fire e s = None) ->
+    script_ok nev scr -> run F s0 tr = Some s -> (forall e, fire e s = None) -> step F s AOWake = None ->
     s.(pc) = PIdle -> s.(pollable) = false ->
     (s.(sst) = SWaitQueue /\ s.(ready).(o_sent) = false /\ s.(pool) = true /\ s.(txheld) = true) \/
     (exists x, s.(sst) = SWaitSched x /\ s.(sf).(sf_res) = SfNone /\ s.(pool) = true /\ s.(txheld) = false).
   Proof.
-    intros Hscr Hr Hfire Epc Epl.
+    intros Hscr Hr Hfire Hwk Epc Epl.
     pose proof (reachable_inv _ _ _ _ _ _ _ _ _ Hr) as [Hq Hc Hss Hp Hu Hw Hl].
     destruct (run_frame _ _ _ _ _ _ _ _ _ Hr) as (_ & _ & Hev & _). specialize (Hev Hscr).
     unfold wait_ok in Hw. destruct (Hw Epc) as [?|Hwait]; [congruence|].
     unfold sst_ok in Hss. rewrite Epc in Hss.
     destruct (sst s) eqn:Est.
-    - left. destruct Hwait as (_ & ? & ?). destruct Hss as (_ & [?|[? _]] & _); done.
+    - left. destruct Hwait as (_ & ? & [?|(Hpk & Ho & _)]); [destruct Hss as (_ & [?|[? _]] & _); done|].
+      rewrite (no_parked_other F s Hc Hwk) in Ho; [done|by rewrite Epc|done].
     - exfalso. destruct Hwait as (e & r & Hscr' & [Hnone|(c & Hc' & Hf & _)]).
       + assert (e < length (evs s)) as He by (apply Hev; rewrite Hscr'; by left).
         apply lookup_lt_is_Some_2 in He as [? ?]. congruence.
@@ -86,7 +95,7 @@ Section Live.
     pl = true -> script_ok nev scr -> run F s0 tr = Some s -> terminal F s ->
     SlotEnd ∈ s.(log) /\ (forall k, k < nb + na -> OFinish k ∈ s.(log)) /\ (Dropped ∉ s.(log) -> Ret v ∈ s.(log)).
   Proof.
-    intros Hpl Hscr Hr (Tq & Tt & _ & Te).
+    intros Hpl Hscr Hr (Tq & Tt & _ & To & Te).
     pose proof (reachable_inv _ _ _ _ _ _ _ _ _ Hr) as [Hq Hc Hss Hp Hu Hw Hl].
     destruct (run_frame _ _ _ _ _ _ _ _ _ Hr) as (Hpool & Huv & _ & _). rewrite Hpl in Hpool.
     cbn in Tt. destruct (task_step_none _ _ _ Tt) as [[Epc Epl]|Hpc].
@@ -94,9 +103,9 @@ Section Live.
     1: assert (Hnd : in_drain (pc s) = false) by (by rewrite Epc).
     all: cbn in Tq; rewrite Hpool, Hnd in Tq; cbn in Tq.
     all: assert (Hnp : parked s = false).
-    1,3: destruct (parked s) eqn:Epk; [exfalso|done]; destruct (cells_parked _ Hc Epk) as (Hph & Hfd & _).
+    1,3: destruct (parked s) eqn:Epk; [exfalso|done]; destruct (cells_parked _ Hc Epk) as [Ho|(Hph & Hfd & _)]; [by rewrite (no_parked_other F s Hc To Hnd Epk) in Ho|].
     - (* idle owner while the slot job is parked in S2 *)
-      destruct (idle_owner_done _ _ Hscr Hr Te Epc Epl) as [(Est & Hrs & _ & _)|(x & Est & _ & _ & Htx)].
+      destruct (idle_owner_done _ _ Hscr Hr Te To Epc Epl) as [(Est & Hrs & _ & _)|(x & Est & _ & _ & Htx)].
       + destruct (cells_ready_done _ Hc) as [?|Hrx]; [lia|congruence|].
         unfold sst_ok in Hss. rewrite Est in Hss. destruct Hss as (? & _). congruence.
       + rewrite (c_tx _ Hc), Hfd in Htx. done.
@@ -109,7 +118,7 @@ Section Live.
     - rewrite Hnp in Tq. cbn in Tq. destruct (qs_none _ _ Tq) as [Ecur Eopq].
       destruct (qshape_drained _ _ _ Hq Ecur Eopq) as (Hph & Hend & Hall). split_and!; try done.
       intros _. exfalso.
-      destruct (idle_owner_done _ _ Hscr Hr Te Epc Epl) as [(Est & Hrs & _ & _)|(x & Est & Hres & _ & _)].
+      destruct (idle_owner_done _ _ Hscr Hr Te To Epc Epl) as [(Est & Hrs & _ & _)|(x & Est & Hres & _ & _)].
       + destruct (cells_ready_done _ Hc) as [?|Hrx]; [lia|congruence|].
         unfold sst_ok in Hss. rewrite Est in Hss. destruct Hss as (? & _). congruence.
       + destruct (cells_sf_some _ Hc); [lia|congruence|congruence].
@@ -127,13 +136,13 @@ Section Live.
     pl = false -> script_ok nev scr -> run F s0 tr = Some s -> terminal F s -> Dropped ∉ s.(log) ->
     Ret v ∈ s.(log) /\ SlotEnd ∈ s.(log) /\ (forall k, k < nb -> OFinish k ∈ s.(log)).
   Proof.
-    intros Hpl Hscr Hr (_ & Tt & _ & Te) Hnd.
+    intros Hpl Hscr Hr (_ & Tt & _ & To & Te) Hnd.
     pose proof (reachable_inv _ _ _ _ _ _ _ _ _ Hr) as [Hq Hc Hss Hp Hu Hw Hl].
     destruct (run_frame _ _ _ _ _ _ _ _ _ Hr) as (Hpool & Huv & _ & _). rewrite Hpl in Hpool.
     cbn in Tt. destruct Hu as (Hu1 & _ & Hu). unfold pc_ok in Hp.
     assert (Hret : Ret v ∈ log s).
     { destruct (task_step_none _ _ _ Tt) as [[Epc Epl]|[Epc|[Epc|Epc]]].
-      - exfalso. destruct (idle_owner_done _ _ Hscr Hr Te Epc Epl) as [(_ & _ & ? & _)|(x & _ & _ & ? & _)]; congruence.
+      - exfalso. destruct (idle_owner_done _ _ Hscr Hr Te To Epc Epl) as [(_ & _ & ? & _)|(x & _ & _ & ? & _)]; congruence.
       - rewrite Epc in Hp. rewrite Hp in Hu. destruct Hu as [_ Hu]. rewrite <- Huv. by apply Hu.
       - exfalso. apply Hnd. apply Hu1. by rewrite Epc.
       - by rewrite Epc in Hp. }
